@@ -55,6 +55,12 @@ def c05 (op : String) (j : Json) : Option (R Json) :=
       let da ← strOfJson (← fld j "a")
       let db ← strOfJson (← fld j "b")
       pure (resJ fldToJson (rot90Fld f da db))
+  | "rot90k" => some do
+      let f ← fldOfJson (← fld j "field")
+      let da ← strOfJson (← fld j "a")
+      let db ← strOfJson (← fld j "b")
+      let k ← intOfJson (← fld j "k")
+      pure (resJ fldToJson (rot90FldK f da db k))
   | "rdim" => some do
       let f ← fldOfJson (← fld j "field")
       pure (Json.mkObj [("ok", listJ (fun d => optStrJ (rDimLast f d)) f.mesh.region.dims)])
